@@ -279,6 +279,64 @@ def rust_fn(idx, ch):
     return "\n".join(out)
 
 
+def rust_type(t):
+    k = t[0]
+    if k == "I":
+        return "i64"
+    if k == "U":
+        return "usize"
+    if k == "R":
+        return "&" + rust_type(t[1])
+    if k == "P":
+        return "(%s, %s)" % (rust_type(t[1]), rust_type(t[2]))
+    raise ValueError(t)
+
+
+CC_SOURCES = [[], [2], [3, 1, 2, 0]]
+CC_ZSRC = [4, 5, 6, 7]
+CC_NS = [2, 1, 3]
+
+
+def rust_cc(idx, ch):
+    """collect_const! form: constant source, constant arguments; one block per literal source"""
+    kad = "".join(", " + t for t in ch.ktexts)
+    std_tail = ""
+    out = ["#[inline(never)]\n#[allow(non_upper_case_globals)]\nfn cc%d(out: &mut Out) {" % idx]
+    out.append("    const zsrc: &[i64] = &[%s];" % ", ".join("%di64" % z for z in CC_ZSRC))
+    for i, n in enumerate(ch.nparams):
+        out.append("    const %s: usize = %d;" % (n, CC_NS[i % len(CC_NS)]))
+    desc = ch.desc
+    for i, n in enumerate(ch.nparams):
+        desc = desc.replace("{%s}" % n, str(CC_NS[i % len(CC_NS)]))
+    for src in CC_SOURCES:
+        lit = "&[%s]" % ", ".join("%di64" % x for x in src) if src else "&[0i64; 0]"
+        std = "SRC.iter()"
+        for i, (a, t) in enumerate(zip(ch.adapters, ch.ktexts)):
+            rev_later = ch.reverses and not any(b[0] == "rev" for b in ch.adapters[:i + 1])
+            if a[0] == "enumerate" and rev_later:
+                std = "({ let it = %s; let n = it.len(); it.enumerate().map(move |(i, x)| (n - 1 - i, x)) })" % std
+            else:
+                std += "." + t
+        out.append("    {")
+        out.append("        const SRC: &[i64] = %s;" % lit)
+        out.append("        let k = konst::iter::collect_const!(%s => SRC%s);" % (rust_type(ch.item), kad))
+        out.append("        let kv: Vec<String> = k.iter().map(|x| x.sh()).collect();")
+        out.append("        let sv: Vec<String> = %s.map(|x| x.sh()).collect();" % std)
+        out.append("        let slen = SRC.len();")
+        out.append("        let mut known = %s;" % ("true" if ch.pos_before_rev else "false"))
+        if ch.zips_before_rev:
+            out.append("        { let mut cur = slen; for _ in 0..%d { if cur != zsrc.len() { known = true; } cur = cur.min(zsrc.len()); } }" % ch.zips_before_rev)
+        shape = "+".join(ch.shape + ["collect_const"])
+        out.append('        let tag = if known { "known-rap" } else if slen == 0 { "-" } else { "%s" };' % shape)
+        out.append('        let args = format!("{} {} %s [collect]", list(SRC), list(zsrc));' % desc.replace("{", "{{").replace("}", "}}"))
+        out.append('        let (k, s) = (format!("[{}]", kv.join(",")), format!("[{}]", sv.join(",")));')
+        out.append('        out.line("c10.eval", &args, &k, if known { "-" } else { &s }, tag);')
+        out.append('        out.line("c10.spec", &args, "-", &s, tag);')
+        out.append("    }")
+    out.append("}")
+    return "\n".join(out)
+
+
 SHOW = r"""
 trait Sh { fn sh(&self) -> String; }
 impl Sh for i64 { fn sh(&self) -> String { self.to_string() } }
@@ -425,6 +483,18 @@ def produce(tier, seed, release, out_path):
         src.append("    out.flush();\n}")
         bins[name] = "\n".join(src)
         names.append(name)
+    # the collect_const! form (two-pass const evaluation) on a subset with constant inputs
+    cc = [ch for ch in chains if ch.kind == "s1" and ch.cons_kind in ("collect", "for_each", "evalfe")]
+    cc = cc[:: max(1, len(cc) // (70 if tier == "quick" else 250))]
+    src = [common.PRELUDE, SHOW]
+    for i, ch in enumerate(cc):
+        src.append(rust_cc(i, ch))
+    src.append("fn main() {\n    let mut out = Out::new();")
+    for i, ch in enumerate(cc):
+        src.append("    cc%d(&mut out);" % i)
+    src.append("    out.flush();\n}")
+    bins["c10_collect_const"] = "\n".join(src)
+    names.append("c10_collect_const")
     crate = "kv_c10_" + tier
     common.make_crate(crate, bins)
     err = common.build(crate, release=release)
